@@ -15,7 +15,7 @@ POOL = {"int": INTS, "dec": DECS, "word": WORDS, "flag": FLAGS}
 
 
 @st.composite
-def tables(draw, min_rows=1, max_rows=9, blanks=True, ragged=True, lead_blank=False, extra=True, pad=True):
+def tables(draw, min_rows=1, max_rows=9, blanks=True, ragged=True, lead_blank=False, extra=True, pad=True, space_cells=True):
     ncols = draw(st.integers(1, 4))
     names = draw(st.lists(st.sampled_from(COLNAMES), min_size=ncols, max_size=ncols, unique=True))
     cols = [{"name": "id", "type": "id", "dense": True}]
@@ -45,7 +45,7 @@ def tables(draw, min_rows=1, max_rows=9, blanks=True, ragged=True, lead_blank=Fa
                 k = draw(st.integers(0, 5))
                 if k == 0:
                     v = ""
-                elif k == 1:
+                elif k == 1 and space_cells:
                     v = " "
             if pad and draw(st.integers(0, 11)) == 0 and v != "":
                 v = draw(st.sampled_from([" " + v, v + " ", " " + v + " "]))
@@ -59,6 +59,30 @@ def tables(draw, min_rows=1, max_rows=9, blanks=True, ragged=True, lead_blank=Fa
     if blanks and draw(st.integers(0, 5)) == 0:
         records.append([])
     return {"cols": cols, "records": records}
+
+
+@st.composite
+def gap_scans(draw, table):
+    """'+'-lists of single lines / short ranges with gaps between them (data lines only)"""
+    n = len(table["records"])
+    lo = hdr_pos(table) + 1
+    pts = sorted(draw(st.lists(st.integers(lo, n + 1), min_size=2, max_size=5, unique=True)))
+    terms = []
+    for p in pts:
+        if draw(st.integers(0, 3)) == 0:
+            terms.append(f"{p}-{p + 1}" if (p + 1) not in pts else str(p))
+        else:
+            terms.append(str(p))
+    # drop terms that would overlap the previous one
+    out, last = [], -1
+    for t in terms:
+        a = int(t.split("-")[0])
+        b = int(t.split("-")[-1])
+        if a <= last:
+            continue
+        out.append(t)
+        last = b
+    return "+".join(out[:4])
 
 
 def hdr_pos(table):
